@@ -6,12 +6,13 @@ namespace MtailVerif.C14
 open MtailVerif MtailVerif.Runtime
 
 /-- Obligations over regenerated facts: `Store.Add` copies the pending expiry into the new label
-    value, recognises a re-declared metric by (program, type, source) and then compares keys, and
+    value, recognises a re-declared metric by (program, type, source) and then compares keys and bucket
+    boundaries (either difference discards the old data), and
     `CompileAndRun` short-circuits on an unchanged content hash. -/
 theorem add_source_shape :
     Generated.Runtime.addCopiesExpiry = true ∧
     Generated.Runtime.addSkipConds = ["v.Program != m.Program", "v.Type != m.Type", "v.Source != m.Source"] ∧
-    Generated.Runtime.addBreakCond = "len(v.Keys) != len(m.Keys) || !reflect.DeepEqual(v.Keys, m.Keys)" ∧
+    Generated.Runtime.addBreakCond = "len(v.Keys) != len(m.Keys) || !reflect.DeepEqual(v.Keys, m.Keys) ;; !reflect.DeepEqual(v.Buckets, m.Buckets)" ∧
     Generated.Runtime.addKindCond = "m.Kind != t" ∧
     Generated.Runtime.hashShortCircuit = "ok && bytes.Equal(vh.contentHash, contentHash)" := by decide
 
@@ -38,19 +39,19 @@ theorem refused_load_keeps_previous (cfg : Cfg) (r : RT) (name : Bytes) (v : Ver
     (h : decision cfg r name v = .refused ps) : (compileAndRun cfg r name v).handles = r.handles := by
   simp [compileAndRun, h]
 
-/-- a reload that keeps a declaration (same program, type, source, keys, kind) keeps that
+/-- a reload that keeps a declaration (same program, type, source, keys, bucket boundaries, kind) keeps that
     metric's accumulated values — and, the expiry being copied, its pending expiry: the new
     metric object replaces the old one and holds exactly the old label values -/
 theorem reload_keeps_declaration_keeps_data (s : Store) (m v : SMetric)
     (hs : s.get m.name = [v]) (hfresh : m.lvs = [])
     (hp : v.prog = m.prog) (ht : v.typ = m.typ) (hsrc : v.source = m.source) (hk : v.keys = m.keys)
-    (hkind : v.kind = m.kind) (hnd : (v.lvs.map (·.labels)).Nodup) :
+    (hb : v.buckets = m.buckets) (hkind : v.kind = m.kind) (hnd : (v.lvs.map (·.labels)).Nodup) :
     s.add true m = .ok (s.set m.name [{ m with lvs := v.lvs }]) := by
   unfold Store.add
   rw [hs]
   simp only [hkind, ne_eq, not_true_eq_false, if_false]
   have hscan : addScan true m [v] 0 none = ({ m with lvs := v.lvs }, some 0) := by
-    simp only [addScan, hp, ht, hsrc, hk, ne_eq, not_true_eq_false, if_false]
+    simp only [addScan, hp, ht, hsrc, hk, hb, ne_eq, not_true_eq_false, or_self, if_false]
     rw [copy_fold true m v.lvs hnd (by simp [hfresh])]
     have : v.lvs.map (copied true) = v.lvs := by
       induction v.lvs with
@@ -90,6 +91,21 @@ theorem partial_registration_counterexample :
     (registerAll true [([99], [other])] [ok, clash]).toOption = none ∧
     (registerPartial true [([99], [other])] [ok, clash]).length = 2 := by
   decide
+
+/-- a reload that changes a histogram's bucket boundaries (everything else as before) starts the
+    histogram afresh: the counts under the old boundaries are not carried into the new metric, and
+    the old metric is gone from the store -/
+theorem reload_with_other_buckets_starts_afresh (ce : Bool) (s : Store) (m v : SMetric)
+    (hs : s.get m.name = [v]) (hp : v.prog = m.prog) (ht : v.typ = m.typ) (hsrc : v.source = m.source)
+    (hb : v.buckets ≠ m.buckets) (hkind : v.kind = m.kind) :
+    s.add ce m = .ok (s.set m.name [m]) := by
+  unfold Store.add
+  rw [hs]
+  simp only [hkind, ne_eq, not_true_eq_false, if_false]
+  have hscan : addScan ce m [v] 0 none = (m, some 0) := by
+    simp only [addScan, hp, ht, hsrc, ne_eq, not_true_eq_false, if_false, hb, not_false_eq_true, or_true, if_true]
+  rw [hscan]
+  simp
 
 /-! ### regenerated control skeletons (written by lib/wire_skeletons.py) -/
 /-- Obligations over regenerated facts: the functions this property's model stands for have the
